@@ -7,7 +7,7 @@ from __future__ import annotations
 import ast
 
 from ..core.cfg import CFG, ENTRY, EXIT, RAISE
-from ..core.terms import (c, evaluate, fn_name, kw, n, pretty, subterms)
+from ..core.terms import (c, evaluate, fn_name, kw, make_inliner, n, pretty, subterms)
 from .c01 import wiring_obligations
 from .common import LIB_FACTS, is_call, method, short
 
@@ -24,6 +24,14 @@ FREEZE_EXCEPTIONS = {
     f"{NODES}.Var.role#setter": "free-text metadata, not part of the graph",
     f"{NODES}.Node.flag_outdated": "cache state, guarded by in_model_method",
 }
+
+
+def _leave_inl(repo, mc):
+    """pop / copy may delegate to private helpers of the model (release, detach): inline
+    them so that the rules see the effects wherever they are written."""
+    return make_inliner(repo, self_class=mc, allow=lambda f: f.cls is not None
+                        and f.cls.qualname == mc.qualname and f.name.startswith("_")
+                        and not f.name.startswith("__"))
 
 
 def check(ctx):
@@ -300,7 +308,7 @@ def check(ctx):
     pop = method(repo, mc, "pop_nodes_and_vars", own=True)
     cp = method(repo, mc, "copy_nodes_and_vars", own=True)
     for fi in (pop, cp):
-        r = evaluate(repo, fi)
+        r = evaluate(repo, fi, inline=_leave_inl(repo, mc), inline_depth=2)
         un = [t for t, _, cond in r.calls if t[1][0] == "a" and t[1][2] == "_unset_model"]
         ok_un = len(un) == 1 and un[0][1][1][0] == "iter"
         rt = r.ret()
@@ -315,7 +323,7 @@ def check(ctx):
                              "'_model*' nodes are dropped from the result", ok_un and ok_f,
                detail=f"unset={ok_un} filter={ok_f}", stmt=f"{fi.name} detach/filter")
     for fi in (pop, cp):
-        r = evaluate(repo, fi)
+        r = evaluate(repo, fi, inline=_leave_inl(repo, mc), inline_depth=2)
         rt = r.ret()
         srcs = []
         if rt is not None and rt[0] == "tuple" and len(rt[1]) == 2:
@@ -335,14 +343,14 @@ def check(ctx):
                              "second from its variables", len(srcs) == 2
                and from_field(srcs[0], "_nodes") and from_field(srcs[1], "_vars"),
                detail=str([short(x, 60) for x in srcs]), stmt=f"{fi.name} sources")
-    rp = evaluate(repo, pop)
+    rp = evaluate(repo, pop, inline=_leave_inl(repo, mc), inline_depth=2)
     cleared = sorted(t[1][1][2] for t, _, _ in rp.calls if t[1][0] == "a" and t[1][2] == "clear"
                      and t[1][1][0] == "a" and t[1][1][1] == SELF)
     need = {"_nodes", "_vars", "_node_graph", "_var_graph", "_sorted_nodes"}
     ctx.ob("C15.R5", pop, "pop empties the model's node / variable / graph / order "
                           "containers", need <= set(cleared), detail=str(cleared),
            stmt=f"cleared {cleared}")
-    rc = evaluate(repo, cp)
+    rc = evaluate(repo, cp, inline=_leave_inl(repo, mc), inline_depth=2)
     dc = [t for t, _, _ in rc.calls if is_call(t, "copy.deepcopy")]
     ok = len(dc) == 1 and dc[0][2] == (("tuple", (("a", SELF, "_nodes"), ("a", SELF, "_vars"))),)
     ctx.ob("C15.R5", cp, "copy works on one joint deep copy of nodes and variables (shared "
@@ -459,7 +467,7 @@ def check(ctx):
            detail=f"{len(edits)} edit site(s)", nontrivial=False)
     for fi_, t, nd in edits:
         for leave in (pop, cp):
-            r = evaluate(repo, leave)
+            r = evaluate(repo, leave, inline=_leave_inl(repo, mc), inline_depth=2)
             # the detachment may sit in the method or in a helper of the model class that
             # it calls with the detached nodes; what counts is a set_inputs(...) whose
             # keyword inputs are the node's own minus the model-owned `seed`, for every
@@ -496,6 +504,42 @@ def check(ctx):
                    detail="the returned nodes keep their `seed` input pointing at the popped "
                           "model's '_model_<name>_seed' node", node=None,
                    stmt=f"seed input not detached by {leave.name}")
+
+    # the grow path of Model.__init__ moves the COMPLETE graph of a temporary model
+    # (model nodes and their wiring included) into the new model: the step that frees
+    # those nodes must not detach the model-owned inputs
+    tmp_model = [t for t, _, cond in ri.calls if t[0] == "call" and t[1][0] == "a"
+                 and t[1][2] == "build_model" and any(a == n("grow") and p_ for a, p_ in cond)]
+    rel = []
+    if len(tmp_model) == 1:
+        rel = [t for t, _, cond in ri.calls if t[0] == "call" and t[1][0] == "a"
+               and t[1][1] == tmp_model[0] and t[1][2] != "build_model"
+               and repo.lookup_method(mc, t[1][2]) is not None
+               and not repo.lookup_method(mc, t[1][2]).decorators()]
+    ok_rel, rel_detail = False, f"{len(rel)} release call(s)"
+    if len(rel) == 1:
+        rf = repo.lookup_method(mc, rel[0][1][2])
+        seen_f, todo, detaches, unsets = set(), [rf], [], 0
+        while todo:
+            f_ = todo.pop()
+            if f_.qualname in seen_f:
+                continue
+            seen_f.add(f_.qualname)
+            for u, _, _ in evaluate(repo, f_).calls:
+                if u[0] != "call" or u[1][0] != "a":
+                    continue
+                if u[1][2] in ("set_inputs", "add_inputs"):
+                    detaches.append(f"{f_.name}: {pretty(u)[:50]}")
+                if u[1][2] == "_unset_model":
+                    unsets += 1
+                if u[1][1] == SELF and repo.lookup_method(mc, u[1][2]) is not None:
+                    todo.append(repo.lookup_method(mc, u[1][2]))
+        ok_rel = not detaches and unsets >= 1
+        rel_detail = f"release via {rf.name}; input edits reachable: {detaches[:2]}"
+    ctx.ob("C15.R8", init, "Model(..., grow=True) frees the nodes of its temporary model "
+                           "without touching their inputs (the model-owned seed inputs move "
+                           "into the new model together with the seed nodes)", ok_rel,
+           detail=rel_detail, stmt="grow path release " + rel_detail[:80])
 
     # ------------------------------------------------------------------ R6
     gs = method(repo, node, "__getstate__", own=True)
